@@ -81,7 +81,15 @@ class Impl:
                 o = r.Properties
                 sz = r.ipv6_slash_zero() if v6 else r.ipv4_slash_zero()
             else:
-                o = self.DB(CIDRIP=text)
+                # a rule may name a source security group next to its CIDR range: the range still decides
+                kw = {"CIDRIP": text}
+                pick = sum(map(ord, text)) % 4
+                if pick == 1:
+                    kw["EC2SecurityGroupId"] = "sg-1"
+                elif pick == 2:
+                    kw["EC2SecurityGroupName"] = "n"
+                    kw["EC2SecurityGroupOwnerId"] = "123456789012"
+                o = self.DB(**kw)
         except Exception as e:
             return {"invalid": True} if common.exc_class(e) == "ValidationError" else {"raised": common.exc_class(e)}
         try:
